@@ -383,6 +383,51 @@ def oracle_supports(ctx, cfg, bank):
                       tags=dict(bank=kind, clause="zero_phase_flag"))
 
 
+def live_threshold_pass(ctx):
+    """EFFECTIVE_SUPPORT_THRESHOLD is a documented configuration knob: banks built after it was changed advertise
+    supports for the value in force.  Oracle only (the generated model carries the default): a fixed set of banks built
+    under a lowered threshold must meet the property's bounds for that threshold."""
+    from pydrobert.speech import config
+
+    eps0 = config.EFFECTIVE_SUPPORT_THRESHOLD
+    fixed = [dict(bank="tri", scale="mel", rate=8000, low=0.0, high=None, num_filts=7, analytic=False),
+             dict(bank="fbank", scale="mel", rate=8000, low=0.0, high=None, num_filts=7, analytic=True),
+             dict(bank="gabor", scale="mel", rate=8000, low=0.0, high=None, num_filts=7, l2=False, erb=False),
+             dict(bank="gabor", scale="bark", rate=8000, low=0.0, high=None, num_filts=7, l2=False, erb=True)]
+    for order in (3, 4, 6):
+        for mc in (False, True):
+            fixed.append(dict(bank="gammatone", scale="mel", rate=8000, low=0.0, high=None, num_filts=7, order=order,
+                              max_centered=mc, l2=False, erb=order == 4))
+    cap = 6000 if ctx.tier == "quick" else 20000
+    try:
+        for eps in (1e-4,) if ctx.tier == "quick" else (1e-4, 2e-3):
+            config.EFFECTIVE_SUPPORT_THRESHOLD = eps
+            for cfg0 in fixed:
+                if ctx.out_of_time():
+                    return
+                cfg = dict(cfg0, threshold=eps)
+                try:
+                    bank = build(cfg)
+                except Exception as e:
+                    ctx.count("bank_ctor_error:" + type(e).__name__)
+                    continue
+                ctx.count("live_threshold_bank:" + cfg["bank"])
+                oracle_supports(ctx, cfg, bank)
+                for i in (0, bank.num_filts // 2, bank.num_filts - 1):
+                    left, right = bank.supports[i]
+                    lo, hi = bank.supports_hz[i]
+                    if not (hi > lo) or right - left <= 0:
+                        continue
+                    w0 = int(math.ceil(max(right - left, 2.0 * bank.sampling_rate / (hi - lo), 1)))
+                    for W in (w0,) if ctx.tier == "quick" else (w0, 2 * w0 + 1):
+                        if W <= (2500 if ctx.tier == "quick" else cap):
+                            oracle_filter(ctx, cfg, bank, i, W, eps)
+                        else:
+                            ctx.count("live_threshold_width_skipped")
+    finally:
+        config.EFFECTIVE_SUPPORT_THRESHOLD = eps0
+
+
 # ------------------------------------------------------------------------------------------------
 # run
 # ------------------------------------------------------------------------------------------------
@@ -511,6 +556,8 @@ def run(ctx, driver):
                     elif kind == "tri":
                         add("triimp %s %s %s %s %d %d" % (b01(cfg["analytic"]), fb(p["l"]), fb(p["m"]), fb(p["r"]), k, W),
                             case, "cpx", (val, scale))
+    # ---- the threshold is a live configuration knob ---------------------------------------------------
+    live_threshold_pass(ctx)
     # ---- run the model ----------------------------------------------------------------------------
     outs = driver.run(lines)
     ctx.corr_lines += len(lines)
@@ -574,6 +621,9 @@ def replay(rp):
         print("oracle:", rp.get("oracle"), "expected", rp.get("expected"), "got", rp.get("got"))
         return 0
     cfg = {k: v for k, v in case.items() if k not in ("filt", "width", "sample")}
+    if case.get("threshold") is not None:
+        # recorded under a changed configuration knob (live_threshold_pass): set it before the bank is built
+        config.EFFECTIVE_SUPPORT_THRESHOLD = case["threshold"]
     bank = build(cfg)
     eps = float(config.EFFECTIVE_SUPPORT_THRESHOLD)
     i = case.get("filt", 0)
